@@ -213,15 +213,19 @@ def failing(rec):
     return False
 
 
-def shrink(case, use_prior, ops):
+def shrink(case, use_prior, ops, deadline=None):
     """drop operations while the history still fails (reads first, then sets)"""
     def fails(o, pr):
         return any(failing(r) for r in run_live(case, pr, o))
+
+    import time
 
     changed = True
     while changed:
         changed = False
         for i in range(len(ops) - 1, -1, -1):
+            if deadline is not None and time.time() > deadline:  # bounded work after a finding
+                return use_prior, ops
             if ops[i]["op"] == "eval" and i == len(ops) - 1:
                 continue
             cand = ops[:i] + ops[i + 1:]
